@@ -154,10 +154,11 @@ func e2eRefuseComponent(r *hx.Run) {
 			if rng.Intn(2) == 0 {
 				args = append(args, "-i", "veth0")
 			}
-			if rng.Intn(2) == 0 {
+			isARP := f.words[0] == "arp" // the arp command knows no --gwmac, --file, --exclude
+			if rng.Intn(2) == 0 && !isARP {
 				args = append(args, "--gwmac", "02:00:00:00:fe:00")
 			}
-			if withFile {
+			if withFile && !isARP {
 				args = append(args, "-f", pktFile)
 				fileKind = "addrs"
 			}
@@ -174,7 +175,7 @@ func e2eRefuseComponent(r *hx.Run) {
 				}
 			}
 		}
-		if rng.Intn(3) == 0 {
+		if rng.Intn(3) == 0 && f.words[0] != "arp" {
 			args = append(args, "--exclude", excl)
 		}
 		// the argument where cobra takes positional arguments: last, or (a string that does not start with '-') first
